@@ -38,20 +38,24 @@ def have_namespace():
         return False
 
 
-def run_ns(exe, fixture, lines, timeout=900, tmpdir=None, setenv=None, unsetenv=()):
-    """the harness inside a private mount namespace: fixture over /dev/urandom, and over /tmp either a
-    fresh tmpfs or (tmpdir) a scratch directory that outlives the process, so that a later process can
-    find what an earlier one stored"""
+def run_ns(exe, fixture, lines, timeout=900, tmpdir=None, setenv=None, unsetenv=(), tmpfs_size=None):
+    """the harness inside a private mount namespace: fixture over /dev/urandom (None: the real one), and over
+    /tmp either a fresh tmpfs (optionally of a given size) or (tmpdir) a scratch directory that outlives the
+    process, so that a later process can find what an earlier one stored"""
     env = dict(vlib.ENV)
-    env.update({"VERIF_C20_NS": "1", "VERIF_C20_FIXTURE": fixture})
+    env.update({"VERIF_C20_NS": "1"})
+    if fixture:
+        env["VERIF_C20_FIXTURE"] = fixture
     for k in unsetenv:
         env.pop(k, None)
     env.update(setenv or {})
+    bind = 'mount --bind "$1" /dev/urandom && ' if fixture else ""
     if tmpdir is None:
-        script = 'mount --bind "$1" /dev/urandom && mount -t tmpfs tmpfs /tmp && exec "$2"'
+        opt = ("-o size=%s " % tmpfs_size) if tmpfs_size else ""
+        script = bind + 'mount -t tmpfs ' + opt + 'tmpfs /tmp && exec "$2"'
     else:
-        script = 'mount --bind "$1" /dev/urandom && mount --bind "$3" /tmp && exec "$2"'
-    p = subprocess.run(["unshare", "-rm", "sh", "-c", script, "sh", fixture, exe, tmpdir or ""], input="\n".join(lines) + "\n",
+        script = bind + 'mount --bind "$3" /tmp && exec "$2"'
+    p = subprocess.run(["unshare", "-rm", "sh", "-c", script, "sh", fixture or "", exe, tmpdir or ""], input="\n".join(lines) + "\n",
                        stdout=subprocess.PIPE, stderr=subprocess.PIPE, text=True, timeout=timeout, env=env)
     return p.returncode, [l[2:] for l in p.stdout.split("\n") if l.startswith("R ")], p.stderr
 
@@ -126,34 +130,44 @@ def gen_draws(r, thorough):
 
 
 IFACES = [None, PEER, "org.freedesktop.DBus.Peers", "org.freedesktop.DBus", "org.freedesktop.dbus.peer",
-          "org.freedesktop.DBus.Introspectable", "rg.freedesktop.DBus.Peer"]
-MEMBERS = [None, "Ping", "GetMachineId", "ping", "Pings", "GetMachineID", "Introspect", "Pin", "GetMachineI"]
+          "org.freedesktop.DBus.Introspectable", "rg.freedesktop.DBus.Peer",
+          "com.example.org.freedesktop.DBus.Peer", "org.freedesktop.DBus.Peer.x"]          # suffix / prefix near misses
+MEMBERS = [None, "Ping", "GetMachineId", "ping", "Pings", "GetMachineID", "Introspect", "Pin", "GetMachineI",
+           "XPing", "PingX", "GetMachineIdX", "XGetMachineId"]
+FLAGS = [0, 1, 2, 4, 255]            # 1 = NO_REPLY_EXPECTED: the property still asks for exactly one reply
+DESTS = [None, "org.me", ":1.1"]
+BODIES = [None, "x", "hello"]
 
 
 def gen_peer_lines(r, thorough, with_get_id):
+    """(iface, member, typ, serial, sender, reply-serial field, flags, destination, body string)"""
     cases = []
     for iface in IFACES:
         for member in MEMBERS:
+            if member == "GetMachineId" and not with_get_id:      # the harness refuses it outside a namespace
+                continue
+            exact = iface == PEER and member in ("Ping", "GetMachineId")
             for typ in "csrei":
-                senders = [None, ":1.9", "org.x.y"] if thorough or iface == PEER else [r.choice([None, ":1.9", "org.x.y"])]
-                for sender in senders:
-                    for serial in ([1, 77, 4294967295] if thorough or (iface == PEER and member in ("Ping", "GetMachineId")) else [r.choice([1, 77, 4294967295, 12345])]):
-                        if member == "GetMachineId" and not with_get_id:      # the harness refuses it outside a namespace
-                            continue
-                        rs = r.choice([None, None, 999]) if not (iface == PEER and member in ("Ping", "GetMachineId")) else None
-                        cases.append((iface, member, typ, serial, sender, rs))
-                        if iface == PEER and member in ("Ping", "GetMachineId") and serial == 77:
-                            cases.append((iface, member, typ, serial, sender, 999))   # the call itself carries a REPLY_SERIAL field
+                reps = 3 if thorough else 1
+                for _ in range(reps):
+                    cases.append((iface, member, typ, r.choice([1, 77, 4294967295, 12345]), r.choice([None, ":1.9", "org.x.y"]),
+                                  r.choice([None, None, 999]), r.choice(FLAGS), r.choice(DESTS), r.choice(BODIES)))
+                if exact:
+                    # the calls the property is about: every flag value (incl. NO_REPLY_EXPECTED), with and without
+                    # body / destination / sender / a REPLY_SERIAL field of their own
+                    for flags in FLAGS:
+                        for sender in (None, ":1.9", "org.x.y"):
+                            cases.append((iface, member, typ, r.choice([1, 77, 4294967295]), sender, r.choice([None, 999]),
+                                          flags, r.choice(DESTS), r.choice(BODIES)))
     return cases
 
 
 def peer_line(c):
-    iface, member, typ, serial, sender, rs = c
-    return "p %s %s %s %d %s %s" % (hx(iface) if iface is not None else "-", hx(member) if member is not None else "-",
-                                    typ, serial, hx(sender) if sender is not None else "-", rs if rs is not None else "-")
+    iface, member, typ, serial, sender, rs, flags, dest, body = c
+    o = lambda x: hx(x) if x is not None else "-"
+    return "p %s %s %s %d %s %s %d %s %s" % (o(iface), o(member), typ, serial, o(sender), rs if rs is not None else "-",
+                                           flags, o(dest), o(body))
 
-
-# ------------------------------------------------------------------ property predicate on the implementation's output
 
 def is_machine_id(b):
     return len(b) == 32 and all(c in HEXDIGITS for c in b)
@@ -175,7 +189,7 @@ def reply_ok(rep, serial, sender):
 
 def judge_peer(case, o):
     """the property on one observed call of handle_peer_message / filter_peer"""
-    iface, member, typ, serial, sender, rs = case
+    iface, member, typ, serial, sender, rs, flags, dest, body_in = case
     peer_header = iface == PEER and member in ("Ping", "GetMachineId")
     is_peer = typ == "c" and peer_header                    # a method CALL to Ping / GetMachineId on the Peer interface
     if o["filter"] != ("true" if peer_header else "false"):
@@ -294,6 +308,194 @@ def env_sweep(ctx, exe, drv, r, tmpd):
                 ctx.tie_broken("correspondence: the ids differ from the model's although they are stable 32-hex-digit ids (%s)" % name, str(data))
 
 
+CLOCK_SHIM_C = r"""
+#define _GNU_SOURCE
+#include <time.h>
+#include <stdlib.h>
+#include <dlfcn.h>
+/* CLOCK_REALTIME = VERIF_FAKE_SECS seconds since the epoch, for the c20 harness process only */
+int clock_gettime(clockid_t id, struct timespec *ts) {
+  static int (*real)(clockid_t, struct timespec *) = 0;
+  const char *s = getenv("VERIF_FAKE_SECS");
+  if (!real) real = (int (*)(clockid_t, struct timespec *)) dlsym(RTLD_NEXT, "clock_gettime");
+  if (s && id == CLOCK_REALTIME) { ts->tv_sec = strtoll(s, 0, 10); ts->tv_nsec = 0; return 0; }
+  return real(id, ts);
+}
+"""
+
+
+def build_clock_shim(tmpd):
+    """a tiny LD_PRELOAD library that sets the wall clock of the harness process; None when no C compiler"""
+    cc = shutil.which("cc") or shutil.which("gcc")
+    if not cc:
+        return None
+    src = os.path.join(tmpd, "clock_shim.c")
+    so = os.path.join(tmpd, "clock_shim.so")
+    open(src, "w").write(CLOCK_SHIM_C)
+    p = subprocess.run([cc, "-shared", "-fPIC", "-O1", "-o", so, src, "-ldl"], stdout=subprocess.PIPE, stderr=subprocess.STDOUT, text=True)
+    return so if p.returncode == 0 and os.path.exists(so) else None
+
+
+def clock_runs(ctx, exe, drv, r, tmpd):
+    """the clock is CHOSEN (LD_PRELOAD shim on the harness process): ids at clock values around the u32
+    boundaries must be exactly the model's format_uuid(rand1, rand2, clock mod 2^32)"""
+    so = build_clock_shim(tmpd)
+    if so is None:
+        ctx.count("clock:skipped(no C compiler)")
+        ctx.extra["clock_shim"] = "no C compiler: chosen-clock runs skipped (the clock part is then only read back from the id)"
+        return
+    values = [0, 42, 2 ** 31, 2 ** 32 - 1, 2 ** 32, 2 ** 32 + 5]
+    import concurrent.futures as cf
+
+    def one(k):
+        fx = os.path.join(tmpd, "clkrandom_%d" % k)
+        open(fx, "wb").write(bytes(12))
+        rr = ctx.sub_rng("clock%d" % k)
+        draws = [bytes(12), bytes(range(1, 13))] + [bytes(rr.randrange(256) for _ in range(12)) for _ in range(2)]
+        lines = ["u %s %s" % (d.hex(), bytes(rr.randrange(256) for _ in range(12)).hex()) for d in draws]
+        rc, outs, err = run_ns(exe, fx, lines, setenv={"LD_PRELOAD": so, "VERIF_FAKE_SECS": str(values[k])})
+        return draws, lines, rc, outs, err
+
+    with cf.ThreadPoolExecutor(len(values)) as ex:
+        results = list(ex.map(one, range(len(values))))
+    effective = False
+    for v, (draws, lines, rc, outs, err) in zip(values, results):
+        if rc != 0 or len(outs) != len(lines):
+            ctx.tie_broken("harness c20 crashed in the chosen-clock run (clock=%d)" % v, err[-1500:])
+            continue
+        rcm, mouts, errm = run_model(drv, ["%s %d" % (l, v) for l in lines])
+        if rcm != 0 or len(mouts) != len(lines):
+            ctx.tie_broken("model driver c20 crashed (chosen-clock run)", errm[-1500:])
+            continue
+        for d, li, lm in zip(draws, outs, mouts):
+            oi, om = fields(li), fields(lm)
+            if oi.get("t0") != str(v):
+                # the shim did not take effect (statically linked libc?): environment, not a verdict
+                ctx.count("clock:shim_not_effective")
+                continue
+            effective = True
+            ctx.case(("clock", v, d), nontrivial=True)
+            ctx.count("clock:value=%d" % v)
+            same = all(oi.get(k) == om.get(k) for k in ("handled1", "r1", "file1", "handled2", "r2", "file2"))
+            why = judge_uuid(oi)
+            if why or not same:
+                ctx.disagreements_checked += 1
+                data = {"kind": "clock", "clock": v, "draw": d.hex(), "impl": li, "model": lm}
+                if why:
+                    ctx.violation("%s [clock = %d s since the epoch]" % (why, v), data)
+                else:
+                    ctx.tie_broken("correspondence: at clock %d the id differs from format_uuid(rand1, rand2, clock mod 2^32) although it is a stable 32-hex-digit id" % v, str(data))
+    ctx.extra["clock_shim"] = "LD_PRELOAD clock_gettime shim built with cc; clock values %s %s" % (values, "in effect" if effective else "NOT in effect (skipped)")
+
+
+def judge_enospc(o):
+    """disk full at the first call: it may fail (environment) but must not answer with a malformed id;
+    once space is free, every call returns one and the same 32-hex-digit id - never an empty one"""
+    ids = []
+    if o.get("handled1") == "true":
+        why, bc = reply_ok(o.get("r1", "-"), 77, ":1.9")
+        if why:
+            return why
+        ids.append(bc[0])
+    elif o.get("r1") != "-":
+        return "a reply was written although GetMachineId failed"
+    for k in ("2", "3"):
+        if o.get("handled" + k) != "true":
+            return "after space was freed GetMachineId was still reported as handled=%s" % o.get("handled" + k)
+        why, bc = reply_ok(o.get("r" + k, "-"), 77, ":1.9")
+        if why:
+            return why
+        ids.append(bc[0])
+    for b in ids:
+        if not b.startswith("s:") or not is_machine_id(unhx(b[2:])):
+            return "after a failed attempt to store the id, the id returned is not a 32-digit hexadecimal string: %r" % (
+                unhx(b[2:]).decode("latin-1") if b.startswith("s:") else b)
+    if any(b != ids[0] for b in ids):
+        return "the machine id changed between calls although the stored id was not removed"
+    return None
+
+
+def enospc_runs(ctx, exe, drv, r, tmpd, thorough):
+    """exercise the failure the atomic store is about: /tmp is a tiny tmpfs that is filled up"""
+    import concurrent.futures as cf
+    sizes = ["4k", "8k", "16k", "64k"] if thorough else ["4k", "8k"]
+
+    def one(k):
+        fx = os.path.join(tmpd, "fullrandom_%d" % k)
+        open(fx, "wb").write(bytes(12))
+        rr = ctx.sub_rng("full%d" % k)
+        ds = [bytes(rr.randrange(256) for _ in range(12)) for _ in range(3)]
+        rc, outs, err = run_ns(exe, fx, ["n " + " ".join(d.hex() for d in ds)], tmpfs_size=sizes[k])
+        return ds, rc, outs, err
+
+    with cf.ThreadPoolExecutor(len(sizes)) as ex:
+        results = list(ex.map(one, range(len(sizes))))
+    for size, (ds, rc, outs, err) in zip(sizes, results):
+        if rc != 0 or len(outs) != 1 or outs[0] in ("nofixture", "refused"):
+            ctx.tie_broken("harness c20 crashed in the disk-full run (tmpfs %s)" % size, err[-1500:])
+            continue
+        oi = fields(outs[0])
+        ctx.case(("enospc", size), nontrivial=True)
+        ctx.count("enospc:tmpfs=%s first_call=%s" % (size, oi.get("handled1")))
+        why = judge_enospc(oi)
+        same = True
+        if oi.get("full") == "true":
+            try:
+                secs = int(unhx(oi.get("file3", "-"))[-8:], 16)
+            except ValueError:
+                secs = 0
+            rcm, mouts, errm = run_model(drv, ["n %s %d" % (" ".join(d.hex() for d in ds), secs)])
+            om = fields(mouts[0]) if rcm == 0 and mouts else {}
+            same = all(oi.get(k) == om.get(k) for k in ("handled1", "r1", "file1", "handled2", "r2", "handled3", "r3", "file3"))
+        else:
+            ctx.count("enospc:not_full(model not compared)")
+        if why or not same:
+            ctx.disagreements_checked += 1
+            data = {"kind": "enospc", "tmpfs": size, "draws": [d.hex() for d in ds], "impl": outs[0]}
+            if why:
+                ctx.violation("%s [/tmp full at the first call]" % why, data)
+            else:
+                ctx.tie_broken("correspondence: the disk-full run differs from the model although the property predicate holds", str(data))
+
+
+def race_runs(ctx, exe, thorough):
+    """N harness processes released together on an empty /tmp (REAL /dev/urandom: every process draws its own
+    id), many rounds: all calls of all processes in a round must return one and the same 32-hex-digit id.
+    No model comparison (the draws are not chosen): the property predicate only."""
+    nproc, rounds = (8, 1500) if thorough else (8, 150)
+    rc, outs, err = run_ns(exe, None, ["race %d %d" % (nproc, rounds)])
+    if rc != 0 or len(outs) != rounds:
+        ctx.tie_broken("harness c20 crashed in the multi-process race run", "rc=%s %d/%d\n%s" % (rc, len(outs), rounds, err[-1500:]))
+        return
+    bad = 0
+    for i, o in enumerate(outs):
+        calls = [c for kid in o.split("=", 1)[1].split(",") for c in kid.split("+")]
+        ctx.evaluations += 1
+        ids = set()
+        why = None
+        if len(calls) != 3 * nproc:
+            why = "a process did not complete its three calls (%d results for %d calls)" % (len(calls), 3 * nproc)
+        for c in calls:
+            h, _, rep = c.partition(";")
+            w, bc = reply_ok(rep.replace("/", ";"), 77, ":1.9") if h == "true" else ("GetMachineId was reported as handled=%s" % h, None)
+            if w:
+                why = why or w
+                continue
+            ids.add(bc[0])
+            if not bc[0].startswith("s:") or not is_machine_id(unhx(bc[0][2:])):
+                why = why or "the machine id is not a 32-digit hexadecimal string: %r" % bc[0]
+        if not why and len(ids) != 1:
+            why = "concurrent first calls returned %d different machine ids although the stored id was never removed" % len(ids)
+        if why:
+            bad += 1
+            ctx.disagreements_checked += 1
+            ctx.violation("%s [%d processes started together on an empty /tmp]" % (why, nproc), {"kind": "race", "round": i, "impl": o[:3000]})
+    ctx.count("race:rounds", rounds)
+    ctx.count("race:processes_per_round", nproc)
+    ctx.extra["race_rounds_distinct"] = rounds            # every round draws fresh random ids: distinct by construction
+    ctx.extra_distinct += rounds
+
+
 def judge_later_process(o, expected):
     """a later process finds the id an earlier process stored: it must come back unchanged, twice"""
     for k in ("handled1", "handled2"):
@@ -355,7 +557,12 @@ def run(ctx):
                 "put into the /dev/urandom fixture, the stored id removed, GetMachineId called twice (the second time with "
                 "another draw in the fixture); afterwards a LATER process (new namespace, other draw) on the same /tmp directory must "
                 "return the id the earlier process stored. Peer dispatch: all combinations of 7 interfaces x 9 members (absent, exact, "
-                "near misses) x 5 message types (call, signal, method return, error, invalid), with senders/serials varied. The process ENVIRONMENT is an input dimension of the check only (the model has none: the code uses the fixed path "
+                "near misses incl. suffix/prefix ones) x 5 message types (call, signal, method return, error, invalid), with sender, serial, "
+                "flags (0,1=NO_REPLY_EXPECTED,2,4,255), destination, body and a REPLY_SERIAL field varied. The CLOCK is chosen too (LD_PRELOAD "
+                "clock_gettime shim compiled at check time, harness process only): draws at 0, 42, 2^31, 2^32-1, 2^32, 2^32+5 seconds must give "
+                "exactly the model's id. DISK FULL: /tmp is a 4k/8k tmpfs filled to the last byte, first call (may fail, must not store or "
+                "return a malformed id), space freed, two more calls (one proper id). RACE: 8 processes released together on an empty /tmp "
+                "with the real /dev/urandom, 150 rounds (thorough 1500): all 24 calls of a round must return one id (predicate only, no model). The process ENVIRONMENT is an input dimension of the check only (the model has none: the code uses the fixed path "
                 "/tmp/dbus_machine_uuid, so it must behave identically in all of them): the namespace runs are repeated with TMPDIR unset, "
                 "=/tmp, =another existing writable directory, =a nonexistent directory, =a directory below /tmp, and HOME/XDG_RUNTIME_DIR "
                 "set elsewhere, to nonexistent directories and unset; per environment three calls in one process (a new draw each time) and "
@@ -365,7 +572,10 @@ def run(ctx):
                    "ocaml/c20/driver.ml and harness/src/bin/c20.rs (I/O wrappers; own little-endian decoder at the peer)",
                    "util-linux unshare + mount (private mount namespace with a fixture over /dev/urandom and a tmpfs over /tmp)",
                    "core::fmt `{:0wX}` is modelled as minimum-width upper-case hex (hex_min), std::str::from_utf8 as a predicate true on ASCII"]
-    ctx.assumptions = ["nobody but create_and_store_machine_uuid writes /tmp/dbus_machine_uuid: a foreign or corrupt stored file is returned as it is "
+    ctx.assumptions = ["when storing a fresh id fails (disk full, link error) get_machine_id returns the io error and the handler's unwrap panics: "
+                       "the call is not answered - an environment failure outside the property; what IS checked and proved: no id file (never an "
+                       "empty or partial one) is left, and later calls return a proper id",
+                       "nobody but create_and_store_machine_uuid writes /tmp/dbus_machine_uuid: a foreign or corrupt stored file is returned as it is "
                        "(or panics the unwrap when it is not UTF-8 / holds NUL) - an environment assumption (hypothesis of C20_id_always_32hex), never a verdict",
                        "/dev/urandom delivers 12 bytes; std::fs::write succeeds or GetMachineId panics (unwrap) - not part of the property",
                        "nothing else removes or rewrites /tmp/dbus_machine_uuid between exists() and read()",
@@ -387,6 +597,15 @@ def run(ctx):
 
     ns = have_namespace() and os.environ.get("VERIF_C20_NO_NS") != "1"
     ctx.extra["mount_namespace"] = ns
+    if not ns:
+        # say so loudly (not a verdict): most of the check needs the namespace
+        print("NOTE property=C20 no private mount namespace (unshare -rm) available: chosen draws, chosen clock, environment sweep, "
+              "disk-full and multi-process runs were NOT run; only real-draw length/alphabet/stability and the dispatch table were checked")
+        ctx.rule = ("FALLBACK MODE (no private mount namespace): nothing is chosen. Real /dev/urandom draws via the real /tmp/dbus_machine_uuid "
+                    "(saved and restored): the id must be 32 hex digits, stored, and returned again by a second call; Peer dispatch: all "
+                    "interface x member x message type combinations except GetMachineId. Non-trivial: every real draw; a dispatch case naming "
+                    "the Peer interface or Ping. The chosen-draw, chosen-clock, environment, disk-full and race runs described in the manifest did not run.")
+        ctx.count("namespace_unavailable:stages_not_run", 6)
     r = ctx.sub_rng("c20")
     os.makedirs(vlib.SCRATCH, exist_ok=True)
     tmpd = tempfile.mkdtemp(prefix="c20_", dir=vlib.SCRATCH)
@@ -425,12 +644,14 @@ def compare_peer(ctx, drv, cases, outs):
         return
     for c, li, lm in zip(cases, outs, mouts):
         oi, om = fields(li), fields(lm)
-        iface, member, typ, serial, sender, rs = c
+        iface, member, typ, serial, sender, rs, flags, dest, body_in = c
         nt = iface == PEER or member in ("Ping", "GetMachineId")
         ctx.case(("p",) + c, nontrivial=nt,
-                 sample={"interface": iface, "member": member, "type": typ, "serial": serial, "sender": sender, "reply_serial_field": rs, "impl": li[:200]}
+                 sample={"interface": iface, "member": member, "type": typ, "serial": serial, "sender": sender, "reply_serial_field": rs, "flags": flags, "destination": dest, "body": body_in, "impl": li[:200]}
                  if nt and iface == PEER and member in ("Ping", "GetMachineId") and len(ctx.samples) < 3 else None)
         ctx.count("peer:handled=" + oi.get("handled", "?"))
+        if iface == PEER and member in ("Ping", "GetMachineId") and typ == "c":
+            ctx.count("peer:call_flags=%d" % flags)
         keys = ["handled", "filter", "written"] + (["pre", "post"] if oi.get("pre") != "unobserved" else [])
         if any(oi.get(k) != om.get(k) for k in keys):
             ctx.disagreements_checked += 1
@@ -554,6 +775,9 @@ def run_in_namespace(ctx, exe, drv, r, thorough, tmpd):
             else:
                 ctx.tie_broken("correspondence: the later process differs from the model although the stored id came back unchanged", str(data))
     env_sweep(ctx, exe, drv, r, tmpd)
+    clock_runs(ctx, exe, drv, r, tmpd)
+    enospc_runs(ctx, exe, drv, r, tmpd, thorough)
+    race_runs(ctx, exe, thorough)
     ctx.exhaustive = False
 
 
